@@ -205,3 +205,60 @@ def generic_replay(run_concrete, oracle_terms, tfvar, var_names, tol=1e-6, index
                 wi, worst, {k: round(v, 6) for k, v in list(env2.items())[:16]})
         return False, 'max rel diff %.3g' % worst
     return replay
+
+
+# ---------------------------------------------------------------- staged lemmas for the generic branch of the quaternion logarithm
+
+def _mentions(term, var):
+    from symx.terms import free_vars
+    return str(var) in free_vars(term)
+
+
+def quat_log_families(ctx):
+    """Find the abstraction variables created by the generic branch of SO3_Log (A = atan(S1 / w), S1 = |v|) and by functions
+    of the norm S3 = |phi| of its result (half-angle and full-angle sin / cos).  Purely syntactic: what is returned only
+    drives which LEMMAS the harness states; every lemma is proved by the solver before it is used."""
+    from symx.axioms import angle_table, _eq0
+    fams = []
+    vs = list(ctx.tfvar.values())
+    sq = {v.get_id(): (a, v) for (nm, a, v) in vs if nm == 'sqrt'}
+    for (nm, u, A) in vs:
+        if nm != 'atan' or not z3.is_app(u) or u.decl().kind() != z3.Z3_OP_DIV:
+            continue
+        S1, w = u.children()
+        if S1.get_id() not in sq:
+            continue
+        for (a3, S3) in sq.values():
+            if not _mentions(a3, A):
+                continue
+            half = full = None
+            for k, (a, s, c) in angle_table(ctx, create=False).items():
+                if s is None or c is None:
+                    continue
+                if _eq0(a - S3 / 2):
+                    half = (s, c)
+                elif _eq0(a - S3):
+                    full = (s, c)
+            fams.append(dict(A=A, S1=S1, w=w, S3=S3, half=half, full=full))
+    return fams
+
+
+def quat_log_lemmas(ctx, sign):
+    """lemma chain for the hemisphere sign*w > 0 (sign = +1 / -1): returns (case hypotheses, [(name, formula)])"""
+    case, lem = [], []
+    for n, f in enumerate(quat_log_families(ctx)):
+        A, S1, w, S3 = f['A'], f['S1'], f['w'], f['S3']
+        # the hemisphere hypothesis is on the first family's w; other families have w' = +-w syntactically
+        if n == 0:
+            case.append(w > 0 if sign > 0 else w < 0)
+        sw = z3.If(w > 0, w, -w)
+        lem.append(('theta%d=2|atan|' % n, S3 == z3.If(w > 0, 2 * A, -2 * A)))
+        if f['half'] is not None:
+            sn, cs = f['half']
+            lem.append(('half%d:a' % n, z3.And(sn * sw == S1 * cs, cs > 0)))
+            lem.append(('half%d:b' % n, cs * cs == w * w))
+            lem.append(('half%d' % n, z3.And(cs == sw, sn == S1)))
+            if f['full'] is not None:
+                sN, cN = f['full']
+                lem.append(('full%d' % n, z3.And(sN == 2 * S1 * sw, cN == 1 - 2 * S1 * S1)))
+    return case, lem
